@@ -5,6 +5,7 @@ model (shipdrv hub) and the observations compared. The property predicates are a
 the implementation's own trace (no model involved), and for C15 a twin run with canonical spellings of
 every SKI is compared with the run that used re-formatted ones."""
 import os
+import re
 
 from . import common as C
 
@@ -87,6 +88,11 @@ def predicates(pid, ins, impl):
             bad.append({"scenario": scn, "history": list(hist), "why": "panic in the hub: " + out})
             continue
         w = ev.split()
+        if w[0] == "cancelrace":
+            # the registered connection reported hello-ok while the cancel was under way: the update, then the cancel
+            if w[2] in reg:
+                st[reg[w[2]]] = int(w[3])
+            w = ["cancel", w[1]]
         others, pairs, rows = parse(out)
         evals += 1
         shapes.add(" ".join(h.split()[0] for h in hist[-3:]))
@@ -260,7 +266,7 @@ def analyse(pid, d, seed, n, ev, only=-1, slow=1):
                 continue
             hist.append(ins[i])
             w1, w2 = ins[i].split(), ins2[i].split()
-            same_event = w1[0] == w2[0] and (w1[1:] == w2[1:] or (len(w1) > 1 and len(w2) > 1 and w1[0] in ("register", "unregister", "cancel", "disconnect", "pairingdetail", "lookup") and norm(w1[1]) == w2[1]))
+            same_event = w1[0] == w2[0] and (w1[1:] == w2[1:] or (len(w1) > 1 and len(w2) > 1 and w1[0] in ("register", "unregister", "cancel", "cancelrace", "disconnect", "pairingdetail", "lookup") and norm(w1[1]) == w2[1]))
             if not same_event:
                 skip = True     # generator followed a divergent state: reported at the first differing output
                 continue
@@ -379,6 +385,27 @@ def check(pid, tier, seed):
         # end to end: real SHIP connections report their state changes to real hubs
         from . import twohubs
         thcov = twohubs.th_part(R, pid, tier, seed)
+    if pid == "C18":
+        # liveness of the notification queue: an update queued at the moment the delivery goroutine ends
+        d = C.workdir("C18notify")
+        fout = os.path.join(d, "notifystress_out.txt")
+        runs = [(seed, 60000)] if tier == "quick" else [(seed + k, 400000) for k in range(3)]
+        nops, nbad = 0, []
+        for s, n in runs:
+            q = C.run([C.HARNESS, "notifystress", "-seed", str(s), "-n", str(n), "-out", fout], cwd=d, timeout=C.engine_timeout())
+            if q.returncode != 0:
+                R.violation({"property": pid, "kind": "harness notifystress crashed", "detail": (q.stdout or "")[-2000:]}, "notifycrash")
+                continue
+            for l in open(fout).read().splitlines():
+                if l.startswith("BAD"):
+                    nbad.append({"seed": s, "n": n, "why": l[4:]})
+                elif l.startswith("SUMMARY"):
+                    nops += int(re.search(r"ops=(\d+)", l).group(1)) if not nbad else 0
+        if nbad:
+            R.violation({"property": pid, "kind": "a pairing-state update is never delivered: at a stable point the application's last notification differs from the state the hub reports",
+                         "replay": "harness notifystress -seed <seed> -n <n>: a started hub without peers, RegisterRemoteSKI / CancelPairingWithSKI back to back, the application's callback busy for 0-3 us",
+                         "count": len(nbad), "first": nbad[0]}, "notify")
+        thcov["notification_liveness_operations"] = nops
     R.coverage = {
         "obligations": cov["obligations"], "discharged": cov["discharged"],
         "checker_cmd": "cd /verif/lean && lake build ShipVerif.Props.HubProps; lake env lean Audit.lean (#print axioms)",
